@@ -27,7 +27,7 @@ use crate::{
     control::SessionControl,
     endpoint::{self, IncomingChannel, InputHandle, LinkFlow, OutgoingChannel, OutputHandle},
     link::{LinkFrame, LinkRelay, SessionStopReason},
-    util::{is_consecutive, Constant},
+    util::Constant,
     Payload,
 };
 
@@ -528,6 +528,40 @@ impl Session {
         Ok(None)
     }
 
+    /// The delivery-ids between `first` and `last` (inclusive) that the session has an entry
+    /// for, in serial-number order.
+    ///
+    /// Delivery-ids are RFC-1982 serial numbers, so the range may wrap around 2^32. A `last`
+    /// that precedes `first` designates nothing. The range is chosen by the peer and can be
+    /// far wider than what is outstanding; the work done is bounded by the number of
+    /// entries, not by the width of the range.
+    fn known_delivery_ids_in_range(
+        &self,
+        role: &Role,
+        first: DeliveryNumber,
+        last: DeliveryNumber,
+    ) -> Vec<DeliveryNumber> {
+        let span = last.wrapping_sub(first);
+        if span >= 1 << 31 {
+            return Vec::new();
+        }
+        if (span as usize) < self.delivery_tag_by_id.len() {
+            (0..=span)
+                .map(|offset| first.wrapping_add(offset))
+                .filter(|id| self.delivery_tag_by_id.contains_key(&(role.clone(), *id)))
+                .collect()
+        } else {
+            let mut ids: Vec<DeliveryNumber> = self
+                .delivery_tag_by_id
+                .keys()
+                .filter(|(r, id)| r == role && id.wrapping_sub(first) <= span)
+                .map(|(_, id)| *id)
+                .collect();
+            ids.sort_by_key(|id| id.wrapping_sub(first));
+            ids
+        }
+    }
+
     fn prepare_session_frames_from_buffered_transfers(
         &mut self,
         mut output_frame_buffer: Vec<SessionFrame>,
@@ -807,12 +841,12 @@ impl endpoint::Session for Session {
     ) -> Result<Option<Vec<Disposition>>, Self::Error> {
         let first = disposition.first;
         let last = disposition.last.unwrap_or(first);
+        let delivery_ids = self.known_delivery_ids_in_range(&disposition.role, first, last);
 
         // A disposition frame may refer to deliveries on multiple links, each may be running
         // in different mode. This counts the largest sections that can be echoed back together
         if disposition.settled {
-            // If it is alrea
-            for delivery_id in first..=last {
+            for delivery_id in delivery_ids {
                 let key = (disposition.role.clone(), delivery_id);
                 if let Some((handle, delivery_tag)) = self.delivery_tag_by_id.remove(&key) {
                     if let Some(link_handle) = self.link_by_input_handle.get_mut(&handle) {
@@ -828,44 +862,50 @@ impl endpoint::Session for Session {
 
             Ok(None)
         } else {
-            let mut delivery_ids = Vec::new();
-            for delivery_id in first..=last {
+            // Runs of consecutive delivery-ids that are settled by an echo
+            let mut runs: Vec<(DeliveryNumber, DeliveryNumber)> = Vec::new();
+            for delivery_id in delivery_ids {
                 let key = (disposition.role.clone(), delivery_id);
-                if let Some((handle, delivery_tag)) = self.delivery_tag_by_id.get(&key) {
-                    if let Some(link_handle) = self.link_by_input_handle.get_mut(handle) {
-                        // In mode Second, the receiver will first send a non-settled disposition,
-                        // and wait for sender's settled disposition
-                        let echo = link_handle.on_incoming_disposition(
-                            disposition.role.clone(),
-                            disposition.settled,
-                            disposition.state.clone(),
-                            delivery_tag.clone(),
-                        );
-
-                        if echo {
-                            delivery_ids.push(delivery_id);
+                let echo = match self.delivery_tag_by_id.get(&key) {
+                    Some((handle, delivery_tag)) => {
+                        match self.link_by_input_handle.get_mut(handle) {
+                            // In mode Second, the receiver will first send a non-settled disposition,
+                            // and wait for sender's settled disposition
+                            Some(link_handle) => link_handle.on_incoming_disposition(
+                                disposition.role.clone(),
+                                disposition.settled,
+                                disposition.state.clone(),
+                                delivery_tag.clone(),
+                            ),
+                            None => false,
                         }
+                    }
+                    None => false,
+                };
+
+                if echo {
+                    // The echo settles the delivery: it is not looked up again
+                    self.delivery_tag_by_id.remove(&key);
+                    match runs.last_mut() {
+                        Some((_, run_last)) if delivery_id == run_last.wrapping_add(1) => {
+                            *run_last = delivery_id
+                        }
+                        _ => runs.push((delivery_id, delivery_id)),
                     }
                 }
             }
 
-            let chunk_inds = consecutive_chunk_indices(&delivery_ids[..]);
-
-            let mut dispositions = Vec::with_capacity(chunk_inds.len());
-            let mut prev_ind = 0;
-            for ind in chunk_inds {
-                let slice = &delivery_ids[prev_ind..ind];
-                let disposition = Disposition {
+            let dispositions = runs
+                .into_iter()
+                .map(|(run_first, run_last)| Disposition {
                     role: Role::Sender,
-                    first: slice[0],
-                    last: slice.last().copied(),
+                    first: run_first,
+                    last: Some(run_last),
                     settled: true,
                     state: disposition.state.clone(),
                     batchable: false,
-                };
-                dispositions.push(disposition);
-                prev_ind = ind;
-            }
+                })
+                .collect();
             Ok(Some(dispositions))
         }
     }
@@ -1158,20 +1198,6 @@ cfg_transaction! {
             Ok(Err(TransactionError::UnknownId))
         }
     }
-}
-
-fn consecutive_chunk_indices(delivery_ids: &[DeliveryNumber]) -> Vec<usize> {
-    delivery_ids
-        .windows(2)
-        .enumerate()
-        .filter_map(|(i, id)| {
-            if is_consecutive(&id[0], &id[1]) {
-                None
-            } else {
-                Some(i + 1)
-            }
-        })
-        .collect()
 }
 
 #[cfg(test)]
